@@ -101,6 +101,8 @@ def cases(rng, tier):
 		('server', b'\r\nGET / HTTP/1.1\r\nHost: h\r\n\r\n'),
 		('server', b'POST / HTTP/1.1\r\nHost: h\r\nContent-Length: 1\r\n\r\nx\r\nGET / HTTP/1.1\r\nHost: h\r\n\r\n'),
 		('server', b'GET / HTTP/1.1\r\nHost: h\r\nContent-Length: 0\r\n\r\n\r\n'),
+		# a body whose last octet is CR followed by a bare LF where the next start line is expected (F17 seen through a CR LF pair)
+		('server', b'POST / HTTP/1.1\r\nHost: h\r\nContent-Length: 1\r\n\r\n\r\nGET / HTTP/1.1\r\nHost: h\r\n\r\n'),
 		('client', b'\r\nHTTP/1.1 200 OK\r\nContent-Length: 0\r\n\r\n'),
 		('client', b'HTTP/1.1 200 OK\r\nContent-Length: 2\r\n\r\nhi\r\n\r\nHTTP/1.1 200 OK\r\nContent-Length: 0\r\n\r\n'),
 	]
@@ -183,6 +185,10 @@ def observe(side, s, cuts):
 			delivered.append(parserutil.render_request(*o) if side == 'server' else parserutil.render_response(o))
 		if sm.message is not None and sm.line_end == b'\n':
 			lf = True
+	# LF line ends once selected stay for the connection (also when the call that selected them raised: the bare LF may be the
+	# LF of a CR LF whose CR was the last body octet of the message before, so it cannot be seen in the stream alone)
+	if sm.line_end == b'\n':
+		lf = True
 	idle = sm.message is None
 	inheaders = (not idle) and sm.state['startline'] and not sm.state['headers']
 	return delivered, err, idle, bytes(sm.buffer) if idle else None, lf, inheaders
